@@ -1,3 +1,4 @@
 -- Root of the `Aiorpcx` library: imports every property's theorem file.
 import Aiorpcx.C06.Props
 import Aiorpcx.C13.Props
+import Aiorpcx.C14.Props
